@@ -42,6 +42,7 @@ import (
 	"testing"
 	"time"
 
+	"git.metabarcoding.org/obitools/obitools4/obitools4/pkg/obialign"
 	"git.metabarcoding.org/obitools/obitools4/obitools4/pkg/obiiter"
 	"git.metabarcoding.org/obitools/obitools4/obitools4/pkg/obioptions"
 	"git.metabarcoding.org/obitools/obitools4/obitools4/pkg/obiseq"
@@ -589,6 +590,18 @@ func c13CheckGraph(c c13Case, g c13Graph) (out []c13Finding) {
 				add("obiclean/consistency/duplicate-edge", "node %s/s%d has two edges to s%d", n.Sample, n.Rec, e.Father)
 			}
 			seen[e.Father] = true
+			if c.Dist >= 2 {
+				// soundness at distance >= 2 (every edge, whatever its label): a link never joins two sequences
+				// farther apart (unit-cost edit distance: substitutions + indels) than the distance option,
+				// and the distance recorded on the edge does not exceed the option. No completeness demanded.
+				if d := c13Lev(c.Seqs[n.Rec], c.Seqs[e.Father]); d > c.Dist {
+					add("obiclean/d>1/spurious-link:edit-distance>distance-option", "sample %s, distance option %d: edge %s -> %s (labelled Dist=%d) joins sequences at edit distance %d",
+						n.Sample, c.Dist, c.Seqs[n.Rec], c.Seqs[e.Father], e.Dist, d)
+				} else if e.Dist > c.Dist {
+					add("obiclean/d>1/edge-dist-field>distance-option", "sample %s, distance option %d: edge %s -> %s carries Dist=%d (edit distance %d)",
+						n.Sample, c.Dist, c.Seqs[n.Rec], c.Seqs[e.Father], e.Dist, d)
+				}
+			}
 			if e.Dist != 1 {
 				continue
 			}
@@ -684,6 +697,20 @@ func c13CheckRecs(c c13Case, recs []c13Rec, via string) (out []c13Finding) {
 		}
 		if (in > 0) != (len(r.Mutation) > 0) {
 			add("obiclean/consistency/mutation-vs-status", "record s%d statuses %v but obiclean_mutation=%v", i, r.Status, r.Mutation)
+		}
+		if c.Dist >= 2 {
+			// soundness at distance >= 2, as the output shows it: the keys of obiclean_mutation are the fathers
+			for _, id := range c13SortedKeys(r.Mutation) {
+				f, err := strconv.Atoi(strings.TrimPrefix(id, "s"))
+				if err != nil || !strings.HasPrefix(id, "s") || f < 0 || f >= len(c.Seqs) {
+					add("obiclean/d>1/spurious-link:mutation-entry-towards-unknown-record", "record s%d (%s) reports a mutation towards %q", i, c.Seqs[i], id)
+					continue
+				}
+				if d := c13Lev(c.Seqs[i], c.Seqs[f]); d > c.Dist {
+					add("obiclean/d>1/spurious-link:edit-distance>distance-option", "distance option %d: record s%d (%s) is linked (obiclean_mutation[%s]=%q) to %s, at edit distance %d",
+						c.Dist, i, c.Seqs[i], id, r.Mutation[id], c.Seqs[f], d)
+				}
+			}
 		}
 		if !c13Default(c) {
 			continue
@@ -935,6 +962,34 @@ func c13SmallPool() []string {
 	}
 }
 
+// c13FarPool: the centre and nine sequences 2 to 5 edits away from it (2 to 6 from one another): data sets in
+// which the second pass of BuildSeqGraph (distance option >= 2) meets pairs on both sides of its bound.
+func c13FarPool() []string {
+	return []string{c13Centre, // acgtta
+		"cagtta",   // 2 substitutions (adjacent letters exchanged)
+		"acgaat",   // 3 substitutions, at the end
+		"tgcata",   // 4 substitutions
+		"tgcaat",   // 5 edits; 2 from the previous one
+		"cataac",   // 4 edits, every position differs
+		"gagttca",  // one letter longer, 3 edits
+		"cgtca",    // one letter shorter, 2 edits
+		"acggttta", // two letters longer, 2 edits
+		"acta",     // two letters shorter, 2 edits
+	}
+}
+
+// c13BeyondBound: is the pair farther apart than `step`, and does the bounded LCS kernel that the second pass
+// of BuildSeqGraph calls nevertheless answer with a pair of values (it may: beyond its bound it answers
+// either "not found" or values that are themselves beyond the bound) ? Those are the pairs that only the
+// caller's own comparison with the distance option keeps out of the graph. Vacuity counter only.
+func c13BeyondBound(a, b string, step int) (beyond, answered bool) {
+	if c13Lev(a, b) <= step {
+		return false, false
+	}
+	lcs, _ := obialign.FastLCSScore(obiseq.NewBioSequence("a", []byte(a), ""), obiseq.NewBioSequence("b", []byte(b), ""), step, nil)
+	return true, lcs >= 0
+}
+
 // ---------------------------------------------------------------------------------------------
 // the check
 // ---------------------------------------------------------------------------------------------
@@ -1065,6 +1120,9 @@ func TestVerifC13(t *testing.T) {
 		}
 		r.Count("edges", int64(nedges))
 		r.Count("edges_dist2", int64(nd2))
+		if c.Dist >= 2 {
+			r.Count("soundness_edges_judged(distance-option>1)", int64(nedges))
+		}
 		r.Count("info_dist2_edges_to_equally_abundant_father", int64(d2tie))
 		if c13Default(c) {
 			r.Count("default_setting_cases", 1)
@@ -1202,12 +1260,93 @@ func TestVerifC13(t *testing.T) {
 
 	// ---- exhaustive part: one worker, one OS thread's worth of parallelism (cheap goroutine hand-offs) ----
 	oldProcs := runtime.GOMAXPROCS(1)
+
+	// ---- soundness at distance options 2 and 3 (first: fixed, small cost): the graph is built by the real
+	// BuildSeqGraph, whose second pass submits every son without one-difference father to a bounded kernel
+	// and has to keep out the pairs beyond the option. Oracle: c13CheckGraph / c13CheckRecs (no link between
+	// sequences farther apart than the option, no edge label above it, coherence); no completeness. ----
+	farEval := func(family string, seqs []string, counts []int, d int, ratio float64, withCLI bool) {
+		cc := make([][]int, len(counts))
+		for i, x := range counts {
+			cc[i] = []int{x}
+		}
+		c := c13Case{Family: family, Seqs: seqs, Samples: []string{"A"}, Counts: cc, Dist: d, Ratio: ratio}
+		c13UseBuildSeqGraph = true
+		evalExact(c, withCLI)
+		c13UseBuildSeqGraph = false
+		r.Count("far_cases", 1)
+	}
+	farBeyond := func(seqs []string, d int) {
+		for i := range seqs {
+			for j := i + 1; j < len(seqs); j++ {
+				if beyond, answered := c13BeyondBound(seqs[i], seqs[j], d); beyond {
+					r.Count("far_pairs_beyond_the_distance_option", 1)
+					if answered {
+						r.Count("far_pairs_beyond_the_option_answered_by_the_kernel", 1)
+					}
+				} else {
+					r.Count("far_pairs_within_the_distance_option", 1)
+				}
+			}
+		}
+	}
+	// (i) the centre with EVERY sequence over {a,c,g,t} of length minL..maxL: son/father both ways, ties in
+	// both record orders
+	minL, maxL := 3, 7
+	if thorough {
+		minL, maxL = 1, 8
+	}
+	r.Bound("far_pairs", fmt.Sprintf("centre x every sequence over acgt of length %d..%d x abundances (2,1),(1,2),(1,1) both record orders x distance option {2,3}, ratio 1; real BuildSeqGraph, CLIOBIClean on the (2,1) case", minL, maxL))
+	kf := 0
+	verifkit.Strings("acgt", minL, maxL, func(u string) {
+		kf++
+		if u == c13Centre || !r.Mine(kf) || r.Expired() {
+			return
+		}
+		r.State("far-pair|" + u)
+		r.Count("sets_far-pair", 1)
+		for _, d := range []int{2, 3} {
+			farBeyond([]string{c13Centre, u}, d)
+			farEval("far-pair", []string{c13Centre, u}, []int{2, 1}, d, 1.0, true)
+			farEval("far-pair", []string{c13Centre, u}, []int{1, 2}, d, 1.0, false)
+			farEval("far-pair", []string{c13Centre, u}, []int{1, 1}, d, 1.0, false)
+			farEval("far-pair", []string{u, c13Centre}, []int{1, 1}, d, 1.0, false)
+		}
+	})
+	// (ii) every subset of 2..3 sequences of the far pool x every abundance vector x distance {2,3} x ratio {1,0.6}
+	far := c13FarPool()
+	r.Bound("far_pool", far)
+	for size := 2; size <= 3; size++ {
+		c13Subsets(len(far), size, func(idx []int) {
+			kf++
+			if !r.Mine(kf) || r.Expired() {
+				return
+			}
+			seqs := make([]string, size)
+			for j, i := range idx {
+				seqs[j] = far[i]
+			}
+			r.State("far-subset|" + strings.Join(seqs, ","))
+			r.Count("sets_far-subset", 1)
+			for _, d := range []int{2, 3} {
+				farBeyond(seqs, d)
+			}
+			c13CountVectors(size, []int{1, 2, 3}, func(v []int) {
+				for _, d := range []int{2, 3} {
+					farEval("far-subset", seqs, append([]int{}, v...), d, 1.0, true)
+					farEval("far-subset", seqs, append([]int{}, v...), d, 0.6, false) // 0.6^2 > 1/3: some links pass the filter
+				}
+			})
+		})
+	}
+
 	k := 0
 	nsets := 0
+	farOnly := os.Getenv("VERIF_C13_SECTIONS") == "far" // development only: stop after the soundness section
 	c13Sets(thorough, func(s c13Set) {
 		k++
 		nsets++
-		if !r.Mine(k) || r.Expired() {
+		if !r.Mine(k) || r.Expired() || farOnly {
 			return
 		}
 		r.Count("sets_"+s.family, 1)
@@ -1254,7 +1393,7 @@ func TestVerifC13(t *testing.T) {
 	kb := 0
 	c13Sets(thorough, func(s c13Set) {
 		kb++
-		if !r.Mine(kb) || truncated {
+		if !r.Mine(kb) || truncated || farOnly {
 			return
 		}
 		if outOfTime() {
@@ -1284,6 +1423,9 @@ func TestVerifC13(t *testing.T) {
 
 	r.RequireNonVacuous("default_setting_cases_with_edges")
 	r.RequireNonVacuous("edges_dist2")
+	r.RequireNonVacuous("soundness_edges_judged(distance-option>1)")
+	r.RequireNonVacuous("far_pairs_beyond_the_option_answered_by_the_kernel")
+	r.RequireNonVacuous("far_pairs_within_the_distance_option")
 	r.RequireNonVacuous("status_h")
 	r.RequireNonVacuous("status_i")
 	r.RequireNonVacuous("status_s")
